@@ -26,6 +26,11 @@ def key_of(row):
     """Key of a rejected line (one report and one known_findings entry per key). Signing lines are keyed by protocol, variant,
     group and the stage at which the run departs from an accepted one - not by quorum / policy / message, which vary with the seed."""
     r = row
+    if r.get("a") == "signdev":
+        honest = [x for x in r["rejects"] if x["party"] != r["dev"]]
+        bad_blame = any(b != r["dev"] for x in honest for b in x["blamed"])
+        why = "panic" if any(x["panic"] for x in r["rejects"]) else ("honest-blamed" if bad_blame else ("bad-output" if r["outs"] else "not-caught"))
+        return "signdev:%s:%s:%s:r%s:%s:%s:%s:%s" % (r["proto"], r["variant"], r["group"], r["dRound"], r["dKind"], r["leaf"], r["op"], why)
     if r.get("a") == "otdev":
         return "otdev:%s:%s:msg%s:%s:%s:%s" % (r["proto"], r["group"], r["msg"], r["leaf"], r["op"], "completed" if r["completed"] else ("panic" if r.get("panic") else "other"))
     if r.get("a") == "blsdev":
@@ -376,6 +381,42 @@ def run_otdev(chk):
         "first aborts (for a message whose sender also checks a later reply that can be the sender itself); 'the other side aborts' is decided as "
         "'the run does not complete, nothing panics, the first abort is at or after the altered message'. The matrix is read from the code's own "
         "messages: every byte-string leaf class (last byte changed) and every array (first and last element exchanged), first and last position"]
+    return res
+
+
+# ------------------------------------------------------------------------------------------------------------------- deviating signer, DKLs23 / Lindell22 (C04)
+
+def run_signdev(chk):
+    """DKLs23 (rvole/bbot on secp256k1, rvole/softspoken on P-256 over a replicated CNF sharing, three signers on secp256k1) and Lindell22
+    (BIP-340 on a CNF sharing, Mina with three signers), round API: one CBOR leaf of one message of one party altered per run."""
+    binary = _build()["plain"]
+    stats = {"lines": 0, "by_case": {}, "by_leaf": {}, "caught_by": {}, "plans_per_case": {}}
+
+    def on_rows(tag, body):
+        for r in body:
+            stats["lines"] += 1
+            case = "%s:%s:%s:n=%d" % (r["proto"], r["variant"], r["group"], len(r["quorum"]))
+            _bump(stats["by_case"], case)
+            stats["plans_per_case"][case] = r["plans"]
+            _bump(stats["by_leaf"], "%s:r%d:%s:%s:%s" % (r["proto"], r["dRound"], r["dKind"], r["leaf"], r["op"]))
+            honest = [x for x in r["rejects"] if x["party"] != r["dev"]]
+            _bump(stats["caught_by"], "honest party" if honest else ("aggregator" if r["outErrs"] else ("deviator's own check" if r["rejects"] else "nobody")))
+        if body:
+            e = body[len(body) // 2]
+            chk.sample({"prod_signdev": e["k"], "rejects": [(x["party"], x["round"], x["blamed"]) for x in e["rejects"]], "outErrs": len(e["outErrs"])}, cap=8)
+    cases = ["signdev:dkls23-bbot", "signdev:dkls23-softspoken", "signdev:dkls23-three", "signdev:lindell22-bip340", "signdev:lindell22-mina"]
+    take = "6" if chk.quick else "1000"      # deviations per case, spread over the case's plans by the seed (thorough: all)
+    tasks = [("rv:signdev-%d" % i, _job(chk, "signdev-%d" % i, binary, False, ["-mode", "signdev", "-only", c, "-stride", take], stats, on_rows, 400, 3400))
+             for i, c in enumerate(cases)]
+    res = vlib.parallel(tasks, max_workers=5)
+    if stats["lines"] < 15:
+        raise vlib.MachineryError("signing deviation driver produced only %d lines" % stats["lines"])
+    _finish_part(chk, "prod_signdev", stats, res, stats["lines"],
+                 "prod signdev: one case = one DKLs23 / Lindell22 signing run on a production curve with one altered leaf of one message")
+    chk.assumptions += [
+        "DKLs23 / Lindell22 deviations on production curves (ProdProto): the altered message is the deviator's, everything else (the deviator's later "
+        "rounds included) is honest code; blame is judged for the honest parties only. The quick tier takes 6 of the 18 - 120 plans of each of five "
+        "cases by seed, the thorough tier all of them. Lindell17 and CGGMP21 are not in this matrix"]
     return res
 
 
